@@ -38,12 +38,13 @@ def est_lit(c):
 def run(ctx, res):
     rng = ctx.rng
     hints = (None, lambda n: list(range(n)), lambda n: list(reversed(range(n))))
-    if ctx.quick:
-        ex = R.exhaustive_cases(3, 4, hints=hints[:1]) + R.exhaustive_cases(3, 3, hints=hints[1:])
-        ex = [c for i, c in enumerate(ex) if (i // 2 + i) % 2 == 0]
-    else:
-        ex = R.exhaustive_cases(3, 4, hints=hints) + R.exhaustive_cases(4, 2)[len(R.exhaustive_cases(3, 2)):]
-    rnd = [R.gen_case(rng) for _ in range(ctx.n(3200, 30000))]
+    with R.untraced():
+        if ctx.quick:
+            ex = R.exhaustive_cases(3, 4, hints=hints[:1]) + R.exhaustive_cases(3, 3, hints=hints[1:])
+            ex = [c for i, c in enumerate(ex) if (i // 2 + i) % 2 == 0]
+        else:
+            ex = R.exhaustive_cases(3, 4, hints=hints) + R.exhaustive_cases(4, 2)[len(R.exhaustive_cases(3, 2)):]
+        rnd = [R.gen_case(rng) for _ in range(ctx.n(3200, 30000))]
     rp = R.replay_cases(ctx)
     if rp:                      # --replay: only the recorded case(s), re-run on the current implementation
         ex, rnd = [], rp
@@ -52,14 +53,14 @@ def run(ctx, res):
     ex = [c for c in R.run_cases(ex) if c["impl"]["out"] is None or c["impl"]["out"]]
     R.run_cases(rnd, rng)
     cases = ex + rnd
-    cr = C.run_corr(ctx.pid, "raire_ex", R.IMPORTS, "raire_case", ex, R.case_lit, "agree_c15", shard=500, show="show_c15")
+    cr = R.corr(ctx.pid, "raire_ex", R.IMPORTS, "raire_case", ex, R.case_lit, "agree_c15", shard=500, show="show_c15")
     res.corr.append(("max difficulty of compute_raire_assertions output vs verified optimum opt (RaireCheck.v), exhaustive small profiles",
                      cr, R.case_json))
-    cr = C.run_corr(ctx.pid, "raire_rnd", R.IMPORTS, "raire_case", rnd, R.case_lit, "agree_c15", shard=40, show="show_c15")
+    cr = R.corr(ctx.pid, "raire_rnd", R.IMPORTS, "raire_case", rnd, R.case_lit, "agree_c15", shard=40, show="show_c15")
     res.corr.append(("max difficulty of compute_raire_assertions output vs verified optimum opt (RaireCheck.v), random profiles",
                      cr, R.case_json))
     ec = est_cases(ctx.n(60, 90))
-    cr2 = C.run_corr(ctx.pid, "est", R.IMPORTS, "nat * nat * nat * Z * Z * Z * Z", ec, est_lit, "agree_est", shard=1300,
+    cr2 = R.corr(ctx.pid, "est", R.IMPORTS, "nat * nat * nat * Z * Z * Z * Z", ec, est_lit, "agree_est", shard=1300,
                      show="show_est")
     res.corr.append(("bp_estimate / cp_estimate vs exact-rational bp_q / cp_q", cr2,
                      lambda c: {"winner": c[0], "loser": c[1], "total": c[2], "bp_estimate": c[3], "cp_estimate": c[4]}))
@@ -68,7 +69,9 @@ def run(ctx, res):
     for c in cases:
         if c["n"] <= 5 and c["impl"]["out"]:
             res.oracle_runs += 1
-            for what in R.oracle_c15(c):
+            with R.untraced():
+                whats = R.oracle_c15(c)
+            for what in whats:
                 res.oracle_violations.append({"what": what, "input": R.case_json(c), "observed": C.jsonable(c["impl"]["out"]),
                                               "signature": f"C15:{what}"})
         if c["impl"]["out"] and len(c["impl"]["out"]) >= 2:
